@@ -86,7 +86,8 @@ def gen_cases(ctx, count):
         take = combos if ctx.tier == "thorough" else combos[:ctx.n(5, 12)]
         for (m, o) in take:
             cases.append({"space": space, "kind": kind, "n": n, "ns": ns, "state": state, "cls": cls, "mode": m, "option": o,
-                          "seed": seed, "policy": rng.choice(["on_t_sample", "on_iteration"]), "twice": rng.random() < 0.25})
+                          "seed": seed, "policy": rng.choice(["on_t_sample", "on_iteration"]),
+                          "twice": rng.random() < 0.25 or seed == 0})
         if rng.random() < 0.3:
             # the script's own default (keyword omitted): must behave like "auto"
             cases.append({"space": space, "kind": kind, "n": n, "ns": ns, "state": state, "cls": cls, "mode": None,
@@ -110,15 +111,19 @@ def child_case(case, lib):
     system = stoch_gen.build_system(net, case["space"])
     system.state = list(case["state"])
     sent = [float(v) for v in system.state.value]
-    try:
+    def mk_script():
         kw = {} if case["mode"] is None else {"init_state_processing": case["mode"]}
-        script = st.RDScript(system, t_sample=[0], time_step=1 / 64, t_max=1 / 64, sampling_policy=case["policy"],
-                             rng_seed=case["seed"], **kw)
+        return st.RDScript(system, t_sample=[0], time_step=1 / 64, t_max=1 / 64, sampling_policy=case["policy"],
+                           rng_seed=case["seed"], **kw)
+    try:
+        script = mk_script()
     except (ValueError, TypeError) as ex:
         return {"raised": type(ex).__name__}
     out = {"sent": sent}
     runs = []
     for rep in range(2 if case.get("twice") else 1):
+        if rep:
+            script = mk_script()      # a second, independent simulate(..., rng_seed=s) call
         eng = LibRDEngine(lib, option=case["option"], requires_molecules=(case["option"] != "euler"))
         common.draws_clear(lib)
         eng.setup(script)
